@@ -179,44 +179,60 @@ def classify_exc(e):
     return f"exc:{type(e).__name__}"
 
 
-def run_real(case):
-    """same answer layout as the Lean driver's cl.run"""
+def _build_collator(case, log):
+    """one collator object for the case's entry (fresh members); constructor assertions propagate"""
     from kappadata.collators.base.kd_compose_collator import KDComposeCollator
     from kappadata.collators.base.kd_single_collator_wrapper import KDSingleCollatorWrapper
+    entry = case["entry"]
+    if entry == "compose":
+        return KDComposeCollator(make_members(case, log), dataset_mode=case["mode"], return_ctx=case["rc"])
+    if entry == "single":
+        return make_members(case, log, dict(dataset_mode=case["mode"], return_ctx=case["rc"]))[0]
+    if entry == "wrapper":
+        return KDSingleCollatorWrapper(make_members(case, log)[0], dataset_mode=case["mode"], return_ctx=case["rc"])
+    if entry == "direct":
+        m = make_members(case, log)[0]
+        return lambda b: m.collate(b, case["mode"], None)
+    raise ValueError(entry)
+
+
+def run_real(case):
+    """same answer layout as the Lean driver's cl.run"""
+    import copy
     log = _Log()
     batch = make_batch(case)
     entry = case["entry"]
     try:
-        if entry == "compose":
-            coll = KDComposeCollator(make_members(case, log), dataset_mode=case["mode"], return_ctx=case["rc"])
-        elif entry == "single":
-            coll = make_members(case, log, dict(dataset_mode=case["mode"], return_ctx=case["rc"]))[0]
-        elif entry == "wrapper":
-            coll = KDSingleCollatorWrapper(make_members(case, log)[0], dataset_mode=case["mode"], return_ctx=case["rc"])
-        elif entry == "direct":
-            m = make_members(case, log)[0]
-            coll = lambda b: m.collate(b, case["mode"], None)
-        else:
-            raise ValueError(entry)
+        coll = _build_collator(case, log)
+        # "warm_on" = "twin": the earlier batches are collated by a SECOND, identically configured collator object that
+        # stays alive (state shared between instances / class- or process-level caches)
+        warm_coll = _build_collator(case, log) if case.get("warm_on") == "twin" else coll
     except AssertionError:
         return {"out": "ctor-assert"}
-    # state carried across calls: the SAME collator object first collates `warm` other batches (longer sequences, other values,
-    # one more ctx key); the judged batch must not depend on them, and what was returned for them must not change afterwards
+    # state carried across calls: the SAME collator object first collates `warm` other batches (per step either longer
+    # sequences + one more ctx key, or -- kind "same" -- the very same padded shape with other values); the judged batch must
+    # not depend on them, and what was returned for them must not change afterwards
     earlier = []
     for j in range(case.get("warm", 0)):
         try:
-            r = coll(make_batch(warm_variant(case, j)))
+            r = warm_coll(make_batch(warm_variant(case, j)))
             earlier.append((r, canon_value(r)))
         except Exception:  # noqa
             break
+    if case.get("copied") and entry != "direct":
+        # the judged call is made on a deep copy of the used object (what a DataLoader worker receives)
+        try:
+            coll = copy.deepcopy(coll)
+        except Exception:  # noqa  (not copyable: judged on the original)
+            pass
     del log.events[:]
     log.n_dc = 0
     with _PatchDC(log):
         try:
             res = coll(batch)
         except Exception as e:  # outcome to be compared; judged by the oracle
-            return {"out": classify_exc(e), "trace": log.events, "_exc": f"{type(e).__name__}: {e}"[:200]}
-    ans = {"out": "ok", "trace": log.events}
+            return {"out": classify_exc(e), "trace": list(log.events), "_exc": f"{type(e).__name__}: {e}"[:200]}
+    ans = {"out": "ok", "trace": list(log.events)}
     ans["_earlier_changed"] = any(canon_value(r) != snap for r, snap in earlier)
     if entry == "direct":
         # collate() on the raw batch: with contexts it returns (data, contexts) itself
@@ -228,33 +244,59 @@ def run_real(case):
             ans["pair"] = False
             ans["batch"] = canon_value(res)
             ans["ctx"] = []
-        ans["_raw"] = res
-        return ans
-    is_pair = isinstance(res, tuple) and len(res) == 2 and isinstance(res[1], dict)
-    # a 2-tuple whose 2nd entry is a dict is what "(batch, ctx)" means; a batch itself never has a dict field here
-    ans["pair"] = bool(is_pair)
-    if is_pair:
-        ans["batch"] = canon_value(res[0])
-        ans["ctx"] = canon_value(res[1])["dict"]
     else:
-        ans["batch"] = canon_value(res)
-        ans["ctx"] = []
+        is_pair = isinstance(res, tuple) and len(res) == 2 and isinstance(res[1], dict)
+        # a 2-tuple whose 2nd entry is a dict is what "(batch, ctx)" means; a batch itself never has a dict field here
+        ans["pair"] = bool(is_pair)
+        if is_pair:
+            ans["batch"] = canon_value(res[0])
+            ans["ctx"] = canon_value(res[1])["dict"]
+        else:
+            ans["batch"] = canon_value(res)
+            ans["ctx"] = []
     ans["_raw"] = res
+    # the returned batch is kept alive (gradient accumulation, list(loader), prefetching) while the same collator object
+    # collates `post` LATER batches (same padded shape with other values / longer ones): it must still be what was returned
+    snap = canon_value(res)
+    kept = [(r, s) for r, s in earlier] + [(res, snap)]
+    for j in range(case.get("post", 0)):
+        try:
+            r = coll(make_batch(warm_variant(case, j + 3, kind=_step_kind(case, "post_kinds", j, "same"))))
+            kept.append((r, canon_value(r)))
+        except Exception:  # noqa
+            break
+    ans["_later_changed"] = any(canon_value(r) != s for r, s in kept)
     return ans
 
 
-def warm_variant(case, j):
-    """an earlier batch for the same collator object: same layout, longer sequences with other values, one more ctx key"""
+def _step_kind(case, field, j, default):
+    kinds = case.get(field) or []
+    return kinds[j] if j < len(kinds) else default
+
+
+def warm_variant(case, j, kind=None):
+    """another batch for the same collator object, same layout. kind "longer" (default): longer sequences with other values,
+    one more ctx key; kind "same": the same lengths (hence the same padded shape per field) with other values"""
     import copy
+    kind = kind or _step_kind(case, "warm_kinds", j, "longer")
     c = copy.deepcopy(case)
+    for k in ("warm", "post", "warm_kinds", "post_kinds", "warm_on", "copied"):
+        c.pop(k, None)
     for name, col in c["table"].items():
         for cell in col:
-            if "q" in cell and name != "fx":
+            if kind == "same":
+                if "q" in cell:
+                    cell["q"] = [v + 10 * (j + 1) for v in cell["q"]]
+                elif "z" in cell:
+                    cell["z"] = cell["z"] + 1 + j
+                elif name not in ("seqlen",):
+                    cell["s"] = cell["s"] + 1 + j
+            elif "q" in cell and name != "fx":
                 cell["q"] = [v + 10 * (j + 1) for v in cell["q"]] + [7 + j] * (j + 2)
             elif "z" in cell:
                 cell["z"] = cell["z"] + 1
     names = [m for m in case["mode"].split(" ") if m != "index"]
-    if names:
+    if names and kind != "same":
         c["ctxkeys"] = dict(case.get("ctxkeys", {}), **{names[-1]: 9})
     return c
 
@@ -327,8 +369,12 @@ def oracle(case, real, samples):
     if out != "ok":
         return Failure(_key(case, "crash"), f"pipeline raises {real.get('_exc', out)} for {tag}", case, "a batch or an AssertionError", out)
     if real.get("_earlier_changed"):
-        return Failure(_key(case, "earlier-result-rewritten"), f"collating this batch changed the (batch, ctx) the same collator object had returned "
-                       f"for an earlier batch, for {tag}", case, "earlier results untouched", "rewritten")
+        return Failure(_key(case, "earlier-result-rewritten"), f"collating this batch changed the (batch, ctx) the same collator object (or a twin "
+                       f"instance, warm_on={case.get('warm_on', 'same')}) had returned for an earlier batch, for {tag}", case, "earlier results untouched", "rewritten")
+    if real.get("_later_changed"):
+        return Failure(_key(case, "result-rewritten-by-later-call"), f"the (batch, ctx) returned for this batch (or for an earlier one) no longer holds "
+                       f"the content of its samples after the same collator object collated {case.get('post', 0)} later batch(es), for {tag}",
+                       case, "returned batches keep their content", "rewritten")
     k = len(samples[0]["items"])
     trace = real["trace"]
     # (batch, ctx) iff return_ctx
@@ -426,7 +472,17 @@ def flag_case(modes, rc, mode, idxs, entry="compose", keys=None, ctxkeys=None):
     members = [{"kind": "probe", "mode": m, "key": (keys[i] if keys else None)} for i, m in enumerate(modes)]
     return {"op": "cl.run", "entry": entry, "members": members, "rc": rc, "mode": mode, "idxs": list(idxs),
             "table": fixed_table(n, names), "ctxkeys": ctxkeys if ctxkeys is not None else {names[0]: 7},
-            "warm": (len(modes) + len(idxs) + int(rc)) % 3}
+            **history(len(modes) + len(idxs) + int(rc), 2 * len(modes) + len(idxs) + len(names))}
+
+
+def history(a, b):
+    """the call history around the judged call (deterministic in a, b): `warm` earlier calls (each with the same padded shape or
+    a longer one, on the same object or on a twin instance), the judged call (possibly on a deep copy of the used object),
+    `post` later calls while all earlier results are kept alive"""
+    warm, post = a % 3, b % 3
+    return {"warm": warm, "warm_kinds": [["same", "longer"][(a // 3 + i) % 2] for i in range(warm)],
+            "warm_on": "twin" if b % 5 == 0 else "same", "copied": b % 7 == 3,
+            "post": post, "post_kinds": [["same", "longer"][(b // 3 + i) % 3 == 2] for i in range(post)]}
 
 
 def exhaustive_flag_cases(max_len=4, batch_sizes=(1, 2, 3, 4), modes=FLAG_MODES):
@@ -482,7 +538,8 @@ def pad_case(rng, entry=None, rc=None, mode=None, bs=None):
         if rng.random() < 0.5:
             ck[nm] = rng.choice([1, 2, 5])
     return {"op": "cl.run", "entry": entry, "members": members, "rc": rc, "mode": mode, "idxs": idxs,
-            "table": seq_table(rng, n, names, equal=rng.random() < 0.15), "ctxkeys": ck, "warm": rng.choice([0, 0, 1, 2])}
+            "table": seq_table(rng, n, names, equal=rng.random() < 0.15), "ctxkeys": ck,
+            **history(rng.choice([0, 1, 2, 4, 5, 7, 8]), rng.randrange(105))}
 
 
 def random_flag_case(rng):
@@ -588,7 +645,10 @@ class C18(PropertyCheck):
         res.rule = (f"{ncorp} corpus + {nex} cases of the sweep (all None/before/after lists of length <= 4 x return_ctx x dataset modes x batch sizes 1-4"
                     f"{'; every list x return_ctx kept, rest sampled' if self.tier == 'quick' else '; complete, plus all lists of length 5'}) "
                     "+ single/wrapper entries + seeded random lists with member-written ctx keys + seeded padding batches "
-                    "(entries compose/single/wrapper/direct, with/without ctx, length profiles incl. empty and equal); "
+                    "(entries compose/single/wrapper/direct, with/without ctx, length profiles incl. empty and equal); every case inside a "
+                    "call history on one collator object: 0-2 earlier and 0-2 later batches of the same padded shape or longer, all returned "
+                    "batches kept alive and re-examined at the end, earlier calls on the same object or a twin instance, judged call partly "
+                    "on a deep copy of the used object; "
                     "distinct = (entry, member modes, return_ctx, dataset mode, batch size class, outcome)")
         res.exhaustive = self.tier == "thorough"
         reals, reqs = [], []
@@ -605,6 +665,13 @@ class C18(PropertyCheck):
             res.bump(f"entry={case['entry']}")
             res.bump(f"len={len(case['members'])}")
             res.bump("pad" if any(m["kind"] == "pad" for m in case["members"]) else "flag")
+            res.bump(f"history=warm{case.get('warm', 0)}/post{case.get('post', 0)}")
+            if case.get("warm", 0) and case.get("warm_on") == "twin":
+                res.bump("history=earlier-calls-on-twin-instance")
+            if case.get("copied"):
+                res.bump("history=judged-on-deepcopy")
+            if "same" in (case.get("warm_kinds") or []) + (case.get("post_kinds") or [])[:case.get("post", 0)]:
+                res.bump("history=repeated-padded-shape")
             if view(real) != view(model):
                 if len(res.disagreements) < 50:
                     res.disagreements.append(Disagreement(case, view(model), view(real)))
